@@ -13,7 +13,7 @@ for p in props:
     if only and p["id"] not in only:
         continue
     ev = json.load(open(os.path.join(os.path.dirname(__file__), "..", "evidence", p["id"] + ".json")))
-    touched = set(ev["coverage"].get("evaluated_bodies", []))
+    touched = set(ev["coverage"].get("evaluated_bodies", [])) | set(ev["coverage"].get("rule_items", []))
     items = set()
     rep = os.path.join(os.path.dirname(__file__), "..", "evidence", "replay", p["id"] + ".json")
     ranges = []
